@@ -197,6 +197,11 @@ func (t *Transport) getConn(addr string) (pc *persistConn, err error) {
 	}
 	t.connsMu.Lock()
 	defer t.connsMu.Unlock()
+	if atomic.LoadUint32(&t.closed) == 1 {
+		// a Transport that has been closed dials no more (a straggling health probe of a closed
+		// Client would otherwise open a connection and start housekeeping that nobody ends)
+		return nil, ErrShutdown
+	}
 	if !t.running {
 		t.once.Do(func() {
 			t.idleConns = make(map[string]*connQueue)
